@@ -263,6 +263,30 @@ CLAIMS = {
                      '+ field-protocol (FIFO) whitelist + must-pass-through '
                      'ordering + who-may-write (ast)',
     },
+    'C02': {
+        'text': 'Decides conformance structure: a wire-schema extractor '
+                'turns 43 message readers and 19 writers of the transport / '
+                'auth / connection / kex layers into field-type words and '
+                'compares each with the RFC layout (frozen table) — this '
+                'catches a writer and its reader changed symmetrically, '
+                'which all-asyncssh tests cancel; the key schedule is tied '
+                'to RFC 4253 §7.2 by data flow (letters A–F → IV/key/MAC key '
+                'per direction and size → cipher per direction → 20 role '
+                'assignments; compute_key hashes K, H, X‖session-id or the '
+                'whole key so far); exchange-hash input order; send_packet '
+                'uses _send_seq read before its advance, header = '
+                'UInt32(len(padded packet)), the padding statement pair is '
+                'evaluated over all 246 (header, block size, length) '
+                'residues (4 <= pad < 4+bs, aligned), one write of packet + '
+                'mac; receive handlers consume only past a length test that '
+                'returns False when short, the handler cycle, and '
+                'data_received always runs the parser.',
+        'note': TB + 'not decided: MAC/ciphertext bytes; exactly-once '
+                'delivery under arbitrary chunking beyond these clauses.',
+        'technique': 'wire-schema (field-type word) extraction vs RFC table '
+                     '+ def-use key-schedule table + finite evaluation of '
+                     'padding residues + CFG guard-dominance (ast)',
+    },
 }
 
 PENDING = 'check not built yet in this session (planned, see DESIGN.md section 5)'
